@@ -7,6 +7,9 @@ From CCTZ Require Import Base SrcConstants Cal CivilImpl PosixImpl ZoneLoad Form
 Local Open Scope Z_scope.
 Ltac Zify.zify_post_hook ::= Z.to_euclidean_division_equations.
 Local Strategy 100 [civil_of_seconds civil_of_days days_from_civil].
+(* lex_fuel / fmt_loop have very large bodies (compiled literal patterns): the
+   kernel must unfold them last. *)
+Local Strategy 200 [lex_fuel fmt_loop].
 
 Ltac f_i64 := unfold int64, min64, max64 in *; lia.
 
@@ -272,3 +275,1625 @@ Proof. intros H. apply off_all in H. unfold off_check in H. rewrite !andb_true_i
 Lemma format_offset_cccz off : -86400 <= off <= 86400 ->
   format_offset off [58; 42; 58] = OK (render_offset off [58] true true).
 Proof. intros H. apply off_all in H. unfold off_check in H. rewrite !andb_true_iff in H. apply res_eqb_eq. tauto. Qed.
+
+(* ---- kExp10 ---- *)
+Lemma kExp10_ok i : 0 <= i <= 18 -> kExp10 i = OK (10 ^ i).
+Proof.
+  intros H.
+  assert (In i (zrange 0 19)) as Hin by (apply zrange_In; lia).
+  cbn [zrange Z.add] in Hin. cbn [In] in Hin.
+  repeat (destruct Hin as [Hin|Hin]; [subst i; reflexivity|]). contradiction.
+Qed.
+
+(* ---- the fraction ---- *)
+Lemma strip_same l : strip_trailing_zeros_rev l = strip_zeros_r l.
+Proof. reflexivity. Qed.
+
+Lemma strip_length l : (length (strip_zeros_r l) <= length l)%nat.
+Proof.
+  induction l as [|c l IH]; [cbn; lia|].
+  assert (c = 48 \/ c <> 48) as [->|N] by lia.
+  - cbn [strip_zeros_r length]. lia.
+  - assert (strip_zeros_r (c :: l) = c :: l) as ->; [|lia].
+    destruct c as [|p|p]; try reflexivity.
+    do 6 (destruct p as [p|p|]; try reflexivity). congruence.
+Qed.
+
+Definition P15 : Z := 1000000000000000.
+Lemma P15_eq : 10 ^ 15 = P15. Proof. reflexivity. Qed.
+
+Lemma pad15_length fs : 0 <= fs < P15 -> length (pad_left 15 48 (dec_digits fs)) = 15%nat.
+Proof.
+  intros H. rewrite pad_left_length.
+  pose proof (dec_digits_length fs 14 ltac:(change (10 ^ Z.of_nat 15) with P15; lia)). lia.
+Qed.
+
+Lemma format64_pad n v : 0 <= n <= 18 -> 0 <= v -> int64 v ->
+  format64 n v = OK (pad_left (Z.to_nat n) 48 (dec_digits v)).
+Proof.
+  intros Hn Hv Iv. rewrite format64_spec by assumption. unfold dec_width.
+  replace (v <? 0) with false by lia. reflexivity.
+Qed.
+
+Lemma frac_min_length fs : 0 <= fs < P15 -> (length (frac_min fs) <= 15)%nat.
+Proof.
+  intros H. unfold frac_min. rewrite rev_length.
+  pose proof (strip_length (rev (pad_left 15 48 (dec_digits fs)))) as L.
+  rewrite rev_length, pad15_length in L by assumption. exact L.
+Qed.
+
+Lemma dec_digits_lenZ v n : 1 <= n -> 0 <= v < 10 ^ n ->
+  (1 <= length (dec_digits v) <= Z.to_nat n)%nat.
+Proof.
+  intros Hn Hv.
+  pose proof (dec_digits_length v (Z.to_nat n - 1)) as L.
+  replace (Z.of_nat (S (Z.to_nat n - 1))) with n in L by lia.
+  specialize (L Hv). lia.
+Qed.
+
+Lemma dec_digits_x10 v : 0 < v < 10 ^ 30 -> dec_digits (10 * v) = dec_digits v ++ [48].
+Proof.
+  intros H. change (10 ^ 30) with 1000000000000000000000000000000 in H.
+  unfold dec_digits.
+  change (dec_digits_fuel 40 (10 * v) []) with
+    (let acc' := (48 + (10 * v) mod 10) :: [] in
+     if (10 * v) / 10 =? 0 then acc' else dec_digits_fuel 39 ((10 * v) / 10) acc').
+  cbv zeta.
+  replace ((10 * v) / 10) with v by lia. replace ((10 * v) mod 10) with 0 by lia.
+  replace (v =? 0) with false by lia.
+  rewrite ddf_app. change (48 + 0) with 48.
+  rewrite (ddf_fuel_irrel 38 39); [reflexivity| |lia].
+  change (10 ^ Z.of_nat 39) with 1000000000000000000000000000000000000000. lia.
+Qed.
+
+Lemma padded_x10 m v : (1 <= m)%nat -> 0 <= v < 10 ^ 30 ->
+  pad_left (S m) 48 (dec_digits (10 * v)) = pad_left m 48 (dec_digits v) ++ [48].
+Proof.
+  intros Hm Hv.
+  assert (v = 0 \/ 0 < v) as [->|P] by lia.
+  - change (dec_digits (10 * 0)) with [48]. change (dec_digits 0) with [48].
+    unfold pad_left. cbn [length].
+    destruct m as [|m']; [lia|].
+    replace (S (S m') - 1)%nat with (S m') by lia. replace (S m' - 1)%nat with m' by lia.
+    f_equal. cbn [repeat]. apply repeat_cons.
+  - rewrite dec_digits_x10 by lia. unfold pad_left. rewrite app_length. cbn [length].
+    replace (S m - (length (dec_digits v) + 1))%nat with (m - length (dec_digits v))%nat by lia.
+    rewrite app_assoc. reflexivity.
+Qed.
+
+Definition FD (fs n : Z) : list Z :=
+  if n <=? 15 then pad_left (Z.to_nat n) 48 (dec_digits (fs / 10 ^ (15 - n)))
+  else pad_left 15 48 (dec_digits fs) ++ repeat 48 (Z.to_nat (n - 15)).
+
+Lemma frac_digits_FD fs n0 : frac_digits fs n0 = FD fs (if 18 <? n0 then 18 else n0).
+Proof. reflexivity. Qed.
+
+Lemma frac_core fs n : 0 <= fs < P15 -> 1 <= n <= 18 ->
+  (do v <- (if 15 <? n then (do e <- kExp10 (n - 15) ;; mul64 fs e)
+            else (do e <- kExp10 (15 - n) ;; OK (Z.quot fs e))) ;;
+   format64 n v) = OK (FD fs n) /\ length (FD fs n) = Z.to_nat n.
+Proof.
+  intros Hfs Hn. unfold FD, P15 in *.
+  destruct (15 <? n) eqn:E.
+  - replace (n <=? 15) with false by lia.
+    rewrite kExp10_ok by lia. cbn [bind].
+    split.
+    2:{ rewrite app_length, repeat_length, pad15_length by (unfold P15; lia). lia. }
+    assert (n = 16 \/ n = 17 \/ n = 18) as [ -> | [ -> | -> ] ] by lia.
+    + change (10 ^ (16 - 15)) with 10. unfold mul64. rewrite chk64_in by f_i64. cbn [bind].
+      rewrite format64_pad by (try f_i64; lia).
+      change (Z.to_nat 16) with 16%nat. change (Z.to_nat (16 - 15)) with 1%nat.
+      replace (fs * 10) with (10 * fs) by lia.
+      rewrite padded_x10 by (try change (10 ^ 30) with 1000000000000000000000000000000; lia).
+      reflexivity.
+    + change (10 ^ (17 - 15)) with 100. unfold mul64. rewrite chk64_in by f_i64. cbn [bind].
+      rewrite format64_pad by (try f_i64; lia).
+      change (Z.to_nat 17) with 17%nat. change (Z.to_nat (17 - 15)) with 2%nat.
+      replace (fs * 100) with (10 * (10 * fs)) by lia.
+      rewrite !padded_x10 by (try change (10 ^ 30) with 1000000000000000000000000000000; lia).
+      rewrite <- app_assoc. reflexivity.
+    + change (10 ^ (18 - 15)) with 1000. unfold mul64. rewrite chk64_in by f_i64. cbn [bind].
+      rewrite format64_pad by (try f_i64; lia).
+      change (Z.to_nat 18) with 18%nat. change (Z.to_nat (18 - 15)) with 3%nat.
+      replace (fs * 1000) with (10 * (10 * (10 * fs))) by lia.
+      rewrite !padded_x10 by (try change (10 ^ 30) with 1000000000000000000000000000000; lia).
+      rewrite <- !app_assoc. reflexivity.
+  - replace (n <=? 15) with true by lia.
+    rewrite kExp10_ok by lia. cbn [bind].
+    assert (0 < 10 ^ (15 - n)) as Ppos by (apply Z.pow_pos_nonneg; lia).
+    assert (0 < 10 ^ n) as Npos by (apply Z.pow_pos_nonneg; lia).
+    assert (10 ^ (15 - n) * 10 ^ n = 1000000000000000) as Hmul.
+    { rewrite <- Z.pow_add_r by lia. replace (15 - n + n) with 15 by lia. reflexivity. }
+    rewrite Z.quot_div_nonneg by lia.
+    assert (0 <= fs / 10 ^ (15 - n) < 10 ^ n) as Hv.
+    { split; [apply Z.div_pos; lia|]. apply Z.div_lt_upper_bound; lia. }
+    assert (fs / 10 ^ (15 - n) <= fs) as Hle.
+    { apply Z.div_le_upper_bound; [lia|]. nia. }
+    set (v := fs / 10 ^ (15 - n)) in *. clearbody v.
+    rewrite format64_pad by (try f_i64; lia).
+    split; [reflexivity|].
+    rewrite pad_left_length. pose proof (dec_digits_lenZ v n ltac:(lia) Hv). lia.
+Qed.
+
+Definition cx_ok (cx : fctx) : Prop :=
+  al_ok' (fc_al cx) /\ 0 <= fc_fs cx < 10 ^ 15 /\ int64 (fc_unix cx) /\
+  tm_wday (fc_tm cx) = wday_sun0 (al_cs (fc_al cx)).
+
+Lemma cx_fields cx : cx_ok cx ->
+  let cs := al_cs (fc_al cx) in
+  1 <= fm cs <= 12 /\ 1 <= fd cs <= 31 /\ 0 <= fhh cs <= 23 /\ 0 <= fmm cs <= 59 /\ 0 <= fss cs <= 59.
+Proof.
+  intros ((V & _) & _). cbv zeta.
+  apply valid_fields_inv in V. destruct V as (V & ? & ? & ?).
+  pose proof (valid_date_inv _ _ _ V) as [? ?].
+  pose proof (dim_range (fy (al_cs (fc_al cx))) (fm (al_cs (fc_al cx)))). lia.
+Qed.
+
+Lemma ext_star_S cx : cx_ok cx ->
+  ext_star cx 83 = OK (render_lib LEsS (al_cs (fc_al cx)) (al_off (fc_al cx)) (al_abbr (fc_al cx)) (fc_fs cx) (fc_unix cx)).
+Proof.
+  intros H. pose proof (cx_fields cx H) as (_ & _ & _ & _ & Hs). destruct H as (_ & Hfs & _).
+  rewrite P15_eq in Hfs. unfold ext_star, render_lib.
+  rewrite format64_pad by (unfold P15 in *; try f_i64; lia). cbn [bind].
+  change (Z.to_nat 15) with 15%nat. rewrite strip_same. fold (frac_min (fc_fs cx)).
+  change (83 =? 83) with true. cbv iota.
+  rewrite format02d_ok by lia. cbn [bind].
+  pose proof (frac_min_length _ Hfs) as L.
+  pose proof (dec2_length (fss (al_cs (fc_al cx))) ltac:(lia)) as L2.
+  destruct (frac_min (fc_fs cx)) as [|a s] eqn:E.
+  - apply fits_ok. rewrite scratch_size_eq, app_length, L2. cbn [length]. lia.
+  - apply fits_ok. rewrite scratch_size_eq, app_length, L2. cbn [length] in *. lia.
+Qed.
+
+Lemma ext_star_f cx : cx_ok cx ->
+  ext_star cx 102 = OK (render_lib LEsf (al_cs (fc_al cx)) (al_off (fc_al cx)) (al_abbr (fc_al cx)) (fc_fs cx) (fc_unix cx)).
+Proof.
+  intros H. destruct H as (_ & Hfs & _).
+  rewrite P15_eq in Hfs. unfold ext_star, render_lib.
+  rewrite format64_pad by (unfold P15 in *; try f_i64; lia). cbn [bind].
+  change (Z.to_nat 15) with 15%nat. rewrite strip_same. fold (frac_min (fc_fs cx)).
+  change (102 =? 83) with false. cbv iota.
+  destruct (frac_min (fc_fs cx)); reflexivity.
+Qed.
+
+Lemma ext_num_S cx n : cx_ok cx -> 0 <= n <= 1024 ->
+  ext_num cx n 83 = OK (render_lib (LEnS n) (al_cs (fc_al cx)) (al_off (fc_al cx)) (al_abbr (fc_al cx)) (fc_fs cx) (fc_unix cx)).
+Proof.
+  intros H Hn. pose proof (cx_fields cx H) as (_ & _ & _ & _ & Hs). destruct H as (_ & Hfs & _).
+  rewrite P15_eq in Hfs. unfold ext_num, render_lib.
+  pose proof (dec2_length (fss (al_cs (fc_al cx))) ltac:(lia)) as L2.
+  change (83 =? 83) with true. cbv iota.
+  destruct (0 <? n) eqn:E.
+  - change src_kDigits10_64 with 18.
+    set (n' := if 18 <? n then 18 else n).
+    assert (1 <= n' <= 18) as Hn' by (unfold n'; destruct (18 <? n) eqn:?; lia).
+    destruct (frac_core (fc_fs cx) n' Hfs Hn') as [Ec El].
+    rewrite frac_digits_FD. fold n'.
+    apply bind_ok in Ec. destruct Ec as (v0 & Ev & Ef). rewrite Ev. cbn [bind]. rewrite Ef. cbn [bind].
+    rewrite format02d_ok by lia. cbn [bind].
+    apply fits_ok. rewrite scratch_size_eq, app_length, L2. cbn [length]. rewrite El. lia.
+  - cbn [bind]. rewrite format02d_ok by lia. cbn [bind].
+    apply fits_ok. rewrite scratch_size_eq, app_length, L2. cbn [length]. lia.
+Qed.
+
+Lemma ext_num_f cx n : cx_ok cx -> 0 <= n <= 1024 ->
+  ext_num cx n 102 = OK (render_lib (LEnf n) (al_cs (fc_al cx)) (al_off (fc_al cx)) (al_abbr (fc_al cx)) (fc_fs cx) (fc_unix cx)).
+Proof.
+  intros H Hn. destruct H as (_ & Hfs & _).
+  rewrite P15_eq in Hfs. unfold ext_num, render_lib.
+  change (102 =? 83) with false. cbv iota.
+  destruct (0 <? n) eqn:E.
+  - change src_kDigits10_64 with 18.
+    set (n' := if 18 <? n then 18 else n).
+    assert (1 <= n' <= 18) as Hn' by (unfold n'; destruct (18 <? n) eqn:?; lia).
+    destruct (frac_core (fc_fs cx) n' Hfs Hn') as [Ec El].
+    rewrite frac_digits_FD. fold n'.
+    apply bind_ok in Ec. destruct Ec as (v0 & Ev & Ef). rewrite Ev. cbn [bind]. rewrite Ef. cbn [bind].
+    apply fits_ok. rewrite scratch_size_eq, El. lia.
+  - cbn [bind]. reflexivity.
+Qed.
+
+(* ---- ToWeek ---- *)
+Lemma norm_spec_valid y m d hh mm ss : valid_fields (mkF y m d hh mm ss) = true ->
+  norm_spec y m d hh mm ss = mkF y m d hh mm ss.
+Proof.
+  intros V. pose proof (valid_fields_inv _ V) as (Vd & _). cbn [fy fm fd] in Vd.
+  pose proof (valid_date_inv _ _ _ Vd) as [Hm _].
+  unfold norm_spec, norm_sec. destruct (carry_id y m Hm) as [-> ->].
+  rewrite <- dfc_day. apply cos_sec_of in V. exact V.
+Qed.
+
+Lemma to_week_core y m d ws : valid_date y m d = true -> int64 y -> 0 <= ws <= 6 ->
+  let yd := days_from_civil y m d - days_from_civil y 1 1 in
+  exists J q k, 1 <= k <= 7 /\ (J - k + 3) mod 7 = ws /\
+    to_week (mkF y m d 0 0 0) ws = OK ((yd + k) / 7) /\ 0 <= yd <= 365 /\
+    days_from_civil y m d = J + yd + 146097 * q.
+Proof.
+  intros V Iy Hws yd.
+  assert (Hy : y = Z.rem y 400 + 400 * Z.quot y 400) by lia.
+  assert (Hr : -399 <= Z.rem y 400 <= 399) by lia.
+  unfold to_week. cbn [fy fm fd].
+  set (r := Z.rem y 400) in *. set (q := Z.quot y 400) in *. clearbody r q.
+  exists (days_from_civil r 1 1), q.
+  set (J := days_from_civil r 1 1).
+  assert (Vr : valid_date r m d = true) by (rewrite <- (valid_date_period r m d q), <- Hy; exact V).
+  pose proof (valid_date_inv _ _ _ Vr) as [Hm Hd].
+  pose proof (dim_range r m) as Hdim.
+  assert (Vf0 : valid_fields (mkF r m d 0 0 0) = true)
+    by (apply valid_fields_intro; cbn [fy fm fd fhh fmm fss]; auto; lia).
+  assert (Vf1 : valid_fields (mkF r 1 1 0 0 0) = true)
+    by (apply valid_fields_intro; cbn [fy fm fd fhh fmm fss]; try lia; apply valid_first; lia).
+  (* yd facts *)
+  assert (Eyd : yd = days_from_civil r m d - J).
+  { unfold yd, J. rewrite Hy, !dfc_period. lia. }
+  assert (Byd : 0 <= yd <= 365).
+  { rewrite Eyd. pose proof (dfc_jan1_le _ _ _ Vr).
+    destruct (yearday_spec_lemma (mkF r m d 0 0 0) Vf0 ltac:(cbn [fy]; f_i64)) as [_ B].
+    cbn [fy fm fd] in B. unfold days_in_year in B. fold J in B. destruct (is_leap r); lia. }
+  (* construct *)
+  rewrite construct_refines_lemma; try f_i64.
+  2:{ destruct (carry_id r m Hm) as [-> _]. f_i64. }
+  2:{ rewrite norm_spec_valid by assumption. cbn [fy]. f_i64. }
+  rewrite norm_spec_valid by assumption. cbn [bind align_spec align64 fy fm fd fhh fmm fss].
+  (* prev_weekday *)
+  destruct (prev_weekday_spec_lemma (mkF r 1 1 0 0 0) ws Vf1 ltac:(cbn; auto) ltac:(cbn [fy]; f_i64) Hws)
+    as (k & Hk & Hwd & _ & Hprev).
+  cbn [fy fm fd] in Hwd, Hprev. fold J in Hwd, Hprev.
+  exists k. split; [exact Hk|]. split; [exact Hwd|].
+  assert (Hyr : r - 1 <= fy (civil_of_seconds ((J - k) * 86400)) <= r).
+  { assert (Vfm : valid_fields (mkF (r - 1) 1 1 0 0 0) = true)
+      by (apply valid_fields_intro; cbn [fy fm fd fhh fmm fss]; try lia; apply valid_first; lia).
+    pose proof (dfc_year_step (r - 1)) as St. replace (r - 1 + 1) with r in St by lia. fold J in St.
+    pose proof (diy_ge (r - 1)) as Dy.
+    pose proof (cos_year_mono (sec_of (mkF (r - 1) 1 1 0 0 0)) ((J - k) * 86400)) as M1.
+    pose proof (cos_year_mono ((J - k) * 86400) (sec_of (mkF r 1 1 0 0 0))) as M2.
+    rewrite cos_sec_of in M1, M2 by assumption. cbn [fy] in M1, M2.
+    unfold sec_of in M1, M2. cbn [fy fm fd fhh fmm fss] in M1, M2. fold J in M2.
+    split; [apply M1|apply M2]; lia. }
+  rewrite Hprev by f_i64. cbn [bind].
+  (* difference *)
+  set (p := civil_of_seconds ((J - k) * 86400)) in *.
+  rewrite (difference_refines_lemma 3 (mkF r m d 0 0 0) p); try assumption; try lia.
+  - cbn [bind ord_spec fy fm fd].
+    change p with (of_ord_spec 3 (J - k)).
+    pose proof (ord_of_ord 3 (J - k)) as Eo. cbn [ord_spec] in Eo. rewrite Eo.
+    rewrite Z.quot_div_nonneg by lia.
+    split; [|split; [exact Byd|]].
+    + f_equal. f_equal. lia.
+    + unfold yd. rewrite Hy, !dfc_period. fold J. lia.
+  - apply valid_cos.
+  - reflexivity.
+  - change p with (of_ord_spec 3 (J - k)). apply align_of_ord.
+  - cbn [fy]. f_i64.
+  - f_i64.
+  - cbn [ord_spec fy fm fd].
+    change p with (of_ord_spec 3 (J - k)).
+    pose proof (ord_of_ord 3 (J - k)) as Eo. cbn [ord_spec] in Eo. rewrite Eo. f_i64.
+Qed.
+
+Lemma align64_3 cs : align64 3 cs = mkF (fy cs) (fm cs) (fd cs) 0 0 0.
+Proof. reflexivity. Qed.
+
+Lemma to_week_U cs : valid_fields cs = true -> int64 (fy cs) ->
+  to_week (align64 3 cs) 6 = OK ((yday0 cs + 7 - wday_sun0 cs) / 7) /\
+  0 <= (yday0 cs + 7 - wday_sun0 cs) / 7 <= 53.
+Proof.
+  intros V I. pose proof (valid_fields_inv _ V) as (Vd & _).
+  destruct (to_week_core _ _ _ 6 Vd I ltac:(lia)) as (J & q & k & Hk & Hw & Ew & Byd & ED).
+  rewrite align64_3, Ew. unfold yday0, wday_sun0, weekday_of_days in *.
+  set (yd := days_from_civil (fy cs) (fm cs) (fd cs) - days_from_civil (fy cs) 1 1) in *.
+  rewrite ED. clearbody yd. clear ED Ew.
+  assert ((yd + k) / 7 = (yd + 7 - ((J + yd + 146097 * q + 3) mod 7 + 1) mod 7) / 7) as <- by lia.
+  split; [reflexivity|lia].
+Qed.
+
+Lemma to_week_W cs : valid_fields cs = true -> int64 (fy cs) ->
+  to_week (align64 3 cs) 0 = OK ((yday0 cs + 7 - (wday_sun0 cs + 6) mod 7) / 7) /\
+  0 <= (yday0 cs + 7 - (wday_sun0 cs + 6) mod 7) / 7 <= 53.
+Proof.
+  intros V I. pose proof (valid_fields_inv _ V) as (Vd & _).
+  destruct (to_week_core _ _ _ 0 Vd I ltac:(lia)) as (J & q & k & Hk & Hw & Ew & Byd & ED).
+  rewrite align64_3, Ew. unfold yday0, wday_sun0, weekday_of_days in *.
+  set (yd := days_from_civil (fy cs) (fm cs) (fd cs) - days_from_civil (fy cs) 1 1) in *.
+  rewrite ED. clearbody yd. clear ED Ew.
+  assert ((yd + k) / 7 = (yd + 7 - (((J + yd + 146097 * q + 3) mod 7 + 1) mod 7 + 6) mod 7) / 7) as <- by lia.
+  split; [reflexivity|lia].
+Qed.
+
+(* ---- the simple specifiers ---- *)
+Definition simple_lib (c : Z) : option libspec :=
+  if c =? 89 then Some LY else if c =? 109 then Some Lm else if c =? 100 then Some Ld
+  else if c =? 101 then Some Le else if c =? 85 then Some LU else if c =? 117 then Some Lu
+  else if c =? 87 then Some LW else if c =? 119 then Some Lw else if c =? 72 then Some LH
+  else if c =? 77 then Some LM else if c =? 83 then Some LS else if c =? 122 then Some Lz
+  else if c =? 90 then Some LZ else if c =? 115 then Some Ls else None.
+
+Definition rl (cx : fctx) (k : libspec) : list Z :=
+  render_lib k (al_cs (fc_al cx)) (al_off (fc_al cx)) (al_abbr (fc_al cx)) (fc_fs cx) (fc_unix cx).
+
+Lemma wday_sun0_range cs : 0 <= wday_sun0 cs <= 6.
+Proof. unfold wday_sun0. lia. Qed.
+
+Lemma simple_spec_lib cx c k : cx_ok cx -> simple_lib c = Some k ->
+  simple_spec cx c = OK (rl cx k).
+Proof.
+  intros H E. pose proof (cx_fields cx H) as (Hm & Hd & Hh & Hmi & Hs). cbv zeta in *.
+  destruct H as ((V & Iy & Hoff) & Hfs & Iu & Hwd).
+  pose proof (wday_sun0_range (al_cs (fc_al cx))) as Wr.
+  unfold simple_lib in E. unfold simple_spec, rl.
+  destruct (c =? 89). { inversion E; subst k; cbn [render_lib]. apply format64_0; assumption. }
+  destruct (c =? 109). { inversion E; subst k; cbn [render_lib]. apply format02d_ok; lia. }
+  destruct (c =? 100). { inversion E; subst k; cbn [render_lib]. apply format02d_ok; lia. }
+  destruct (c =? 101). { inversion E; subst k; cbn [render_lib]. apply format02d_e_ok; lia. }
+  destruct (c =? 85).
+  { inversion E; subst k; cbn [render_lib].
+    destruct (to_week_U _ V Iy) as [-> B]. cbn [bind]. apply format02d_ok; lia. }
+  destruct (c =? 117).
+  { inversion E; subst k; cbn [render_lib]. rewrite Hwd.
+    destruct (wday_sun0 (al_cs (fc_al cx)) =? 0) eqn:E0; cbn [negb]; apply format64_0; f_i64. }
+  destruct (c =? 87).
+  { inversion E; subst k; cbn [render_lib].
+    destruct (to_week_W _ V Iy) as [-> B]. cbn [bind]. apply format02d_ok; lia. }
+  destruct (c =? 119). { inversion E; subst k; cbn [render_lib]. rewrite Hwd. apply format64_0; f_i64. }
+  destruct (c =? 72). { inversion E; subst k; cbn [render_lib]. apply format02d_ok; lia. }
+  destruct (c =? 77). { inversion E; subst k; cbn [render_lib]. apply format02d_ok; lia. }
+  destruct (c =? 83). { inversion E; subst k; cbn [render_lib]. apply format02d_ok; lia. }
+  destruct (c =? 122). { inversion E; subst k; cbn [render_lib]. apply format_offset_z; lia. }
+  destruct (c =? 90). { inversion E; subst k; cbn [render_lib]. reflexivity. }
+  destruct (c =? 115). { inversion E; subst k; cbn [render_lib]. apply format64_0; assumption. }
+  discriminate.
+Qed.
+
+Lemma simple_spec_total cx c : cx_ok cx -> exists s, simple_spec cx c = OK s.
+Proof.
+  intros H. destruct (simple_lib c) as [k|] eqn:E.
+  - eexists. apply simple_spec_lib; eassumption.
+  - unfold simple_lib in E. unfold simple_spec.
+    repeat match type of E with (if ?b then _ else _) = None => destruct b; [discriminate|] end.
+    destruct (c =? 37); eexists; reflexivity.
+Qed.
+
+Lemma format_E4Y cx : cx_ok cx ->
+  format64 4 (fy (al_cs (fc_al cx))) = OK (rl cx LE4Y).
+Proof.
+  intros ((V & Iy & Hoff) & _). rewrite format64_spec by (auto; lia). reflexivity.
+Qed.
+
+(* ================================================================== *)
+(* Literal pattern matches of lex_fuel / fmt_loop as named selectors   *)
+
+Definition lx_top {A} (l : list Z) (knil : A) (kpct : list Z -> A) (klit : Z -> list Z -> A) : A :=
+  match l with [] => knil | 37 :: r => kpct r | c :: r => klit c r end.
+
+Definition lx_after {A} (r : list Z) (knil : A) (kpct kcz kccz kcccz kE : list Z -> A)
+    (kO : Z -> list Z -> A) (kc : Z -> list Z -> A) : A :=
+  match r with
+  | [] => knil
+  | 37 :: r' => kpct r'
+  | 58 :: 122 :: r' => kcz r'
+  | 58 :: 58 :: 122 :: r' => kccz r'
+  | 58 :: 58 :: 58 :: 122 :: r' => kcccz r'
+  | 69 :: r' => kE r'
+  | 79 :: d :: r2 => kO d r2
+  | c :: r' => kc c r'
+  end.
+
+Definition lx_E {A} (r' : list Z) (knil : A) (kT kz ksz ksS ksf k4Y : list Z -> A)
+    (kd : Z -> list Z -> A) : A :=
+  match r' with
+  | [] => knil
+  | 84 :: r2 => kT r2
+  | 122 :: r2 => kz r2
+  | 42 :: 122 :: r2 => ksz r2
+  | 42 :: 83 :: r2 => ksS r2
+  | 42 :: 102 :: r2 => ksf r2
+  | 52 :: 89 :: r2 => k4Y r2
+  | d :: r2 => kd d r2
+  end.
+
+Definition lx_Sf {A} (r3 : list Z) (kS kf : list Z -> A) (dflt : A) : A :=
+  match r3 with 83 :: r4 => kS r4 | 102 :: r4 => kf r4 | _ => dflt end.
+
+Definition lx_glibc {A} (r2 : list Z) (kEO : Z -> list Z -> A) (kx : Z -> list Z -> A) (knil : A) : A :=
+  match r2 with
+  | 69 :: x :: r3 | 79 :: x :: r3 => kEO x r3
+  | x :: r3 => kx x r3
+  | [] => knil
+  end.
+
+Section LexBody.
+Variable rec : list Z -> list ftok.
+
+(* after "%E": [r'] is the text after the E, [d :: r2 = r'] *)
+Definition lex_kd (r' : list Z) (d : Z) (r2 : list Z) : list ftok :=
+  if is_digit d then
+    let '(ds, r3) := take_digits_f r' in
+    lx_Sf r3
+      (fun r4 => if digits_val ds <=? 1024 then FLib (LEnS (digits_val ds)) :: rec r4
+                  else FQuirk (37 :: 69 :: ds) :: rec r3)
+      (fun r4 => if digits_val ds <=? 1024 then FLib (LEnf (digits_val ds)) :: rec r4
+                   else FQuirk (37 :: 69 :: ds) :: rec r3)
+      (FQuirk (37 :: 69 :: ds) :: rec r3)
+  else if negb (is_alpha d) then FQuirk [37; 69] :: rec r'
+  else FOther [37; 69; d] :: rec r2.
+
+Definition lex_kO (d : Z) (r2 : list Z) : list ftok :=
+  if negb (is_alpha d) then FQuirk [37; 79] :: rec (d :: r2) else FOther [37; 79; d] :: rec r2.
+
+(* the general case after '%': [r] is the text after the '%', [c :: r' = r] *)
+Definition lex_kc (r : list Z) (c : Z) (r' : list Z) : list ftok :=
+  if c =? 89 then FLib LY :: rec r'
+  else if c =? 109 then FLib Lm :: rec r'
+  else if c =? 100 then FLib Ld :: rec r'
+  else if c =? 101 then FLib Le :: rec r'
+  else if c =? 85 then FLib LU :: rec r'
+  else if c =? 117 then FLib Lu :: rec r'
+  else if c =? 87 then FLib LW :: rec r'
+  else if c =? 119 then FLib Lw :: rec r'
+  else if c =? 72 then FLib LH :: rec r'
+  else if c =? 77 then FLib LM :: rec r'
+  else if c =? 83 then FLib LS :: rec r'
+  else if c =? 122 then FLib Lz :: rec r'
+  else if c =? 90 then FLib LZ :: rec r'
+  else if c =? 115 then FLib Ls :: rec r'
+  else if (c =? 0) || (c =? 58) || (c =? 79) then FQuirk [37; c] :: rec r'
+  else if is_flag c || is_digit c then
+    let '(fl, r1) := take_while_f is_flag r in
+    let '(wd, r2) := take_digits_f r1 in
+    lx_glibc r2
+      (fun x r3 =>
+        if negb (is_alpha x) then FQuirk (37 :: fl ++ wd) :: rec r2
+        else FOther (37 :: fl ++ wd ++ [nthZ r2 0; x]) :: rec r3)
+      (fun x r3 =>
+        if negb (is_alpha x) then FQuirk (37 :: fl ++ wd) :: rec r2
+        else FOther (37 :: fl ++ wd ++ [x]) :: rec r3)
+      [FQuirk (37 :: fl ++ wd)]
+  else if negb (is_alpha c) then FQuirk [37; c] :: rec r'
+  else FOther [37; c] :: rec r'.
+
+Definition lex_kE (r' : list Z) : list ftok :=
+  lx_E r' [FQuirk [37; 69]]
+    (fun r2 => FLib LET :: rec r2)
+    (fun r2 => FLib LEz :: rec r2)
+    (fun r2 => FLib LEsz :: rec r2)
+    (fun r2 => FLib LEsS :: rec r2)
+    (fun r2 => FLib LEsf :: rec r2)
+    (fun r2 => FLib LE4Y :: rec r2)
+    (lex_kd r').
+
+Definition lex_pct (r : list Z) : list ftok :=
+  lx_after r [FQuirk [37]]
+    (fun r' => FPct :: rec r')
+    (fun r' => FLib Lcz :: rec r')
+    (fun r' => FLib Lccz :: rec r')
+    (fun r' => FLib Lcccz :: rec r')
+    lex_kE lex_kO (lex_kc r).
+
+Definition lex_body (l : list Z) : list ftok :=
+  lx_top l [] lex_pct (fun c r => FLit c :: rec r).
+End LexBody.
+
+Fixpoint lex_fuel2 (fuel : nat) (l : list Z) : list ftok :=
+  match fuel with O => [] | S f => lex_body (lex_fuel2 f) l end.
+
+Lemma lex_fuel_eq : lex_fuel = lex_fuel2.
+Proof. exact_no_check (@eq_refl _ lex_fuel). Qed.
+
+Lemma lex_fuel_S f l : lex_fuel (S f) l = lex_body (lex_fuel f) l.
+Proof. rewrite lex_fuel_eq. exact eq_refl. Qed.
+
+(* ---- fmt_loop ---- *)
+Definition colon_sel (r3 : list Z) : option (list Z * list Z) :=
+  match r3 with
+  | 122 :: r4 => Some ([58], r4)
+  | 58 :: 122 :: r4 => Some ([58; 42], r4)
+  | 58 :: 58 :: 122 :: r4 => Some ([58; 42; 58], r4)
+  | _ => None
+  end.
+
+Definition e_sel {A} (d : Z) (r4 : list Z) (ksz ksS ksf k4Y : list Z -> A) (dflt : A) : A :=
+  match d, r4 with
+  | 42, 122 :: r5 => ksz r5
+  | 42, 83 :: r5 => ksS r5
+  | 42, 102 :: r5 => ksf r5
+  | 52, 89 :: r5 => k4Y r5
+  | _, _ => dflt
+  end.
+
+Definition pi_sel {A} (o : option (Z * list Z)) (kS kf : Z -> list Z -> A) (dflt : A) : A :=
+  match o with
+  | Some (n, 83 :: r5) => kS n r5
+  | Some (n, 102 :: r5) => kf n r5
+  | _ => dflt
+  end.
+
+Definition lit_upd (lit pend result : list Z) : list Z * list Z :=
+  match lit, pend with
+  | _ :: _, [] => (result ++ lit, [])
+  | _, _ => (result, pend ++ lit)
+  end.
+
+Definition pct_upd (pcs pend1 result1 : list Z) (at_end : bool) : list Z * list Z :=
+  let p := Z.of_nat (length pcs) in
+  match pcs, pend1 with
+  | _ :: _, [] =>
+      let escaped := Z.to_nat (Z.quot p 2) in
+      let odd := negb (Z.rem p 2 =? 0) in
+      if odd && at_end then (result1 ++ repeat 37 escaped ++ [37], [])
+      else (result1 ++ repeat 37 escaped, if odd then [37] else [])
+  | _, _ => (result1, pend1 ++ pcs)
+  end.
+
+Section Body.
+Variable o : list Z -> tmrec -> list Z.
+Variable rec : list Z -> list Z -> list Z -> res (list Z).
+Variable cx : fctx.
+
+Definition odd_tail (c : Z) (r3 r2 pend2 result2 : list Z) : res (list Z) :=
+  let pre := removelast pend2 in
+  match strchr simple_set c with
+  | Some _ =>
+      do s <- simple_spec cx c ;;
+      rec r3 [] (result2 ++ flush o pre (fc_tm cx) ++ s)
+  | None =>
+    match (if c =? 58 then colon_sel r3 else None) with
+    | Some (mode, r4) =>
+        do s <- format_offset (al_off (fc_al cx)) mode ;;
+        rec r4 [] (result2 ++ flush o pre (fc_tm cx) ++ s)
+    | None =>
+      if negb (c =? 69) then rec r2 pend2 result2
+      else
+        match r3 with
+        | [] => rec [] (pend2 ++ [69]) result2
+        | d :: r4 =>
+          let pendE := pend2 ++ [69] in
+          let done (s : list Z) (rr : list Z) :=
+            rec rr [] (result2 ++ flush o pre (fc_tm cx) ++ s) in
+          if d =? 84 then done [84] r4
+          else if d =? 122 then
+            (do s <- format_offset (al_off (fc_al cx)) [58] ;; done s r4)
+          else
+            e_sel d r4
+              (fun r5 => do s <- format_offset (al_off (fc_al cx)) [58; 42] ;; done s r5)
+              (fun r5 => do s <- ext_star cx 83 ;; done s r5)
+              (fun r5 => do s <- ext_star cx 102 ;; done s r5)
+              (fun r5 => do s <- format64 4 (fy (al_cs (fc_al cx))) ;; done s r5)
+              (if is_digit d then
+                 pi_sel (parse_int32 r3 0 0 1024)
+                   (fun n r5 => do s <- ext_num cx n 83 ;; done s r5)
+                   (fun n r5 => do s <- ext_num cx n 102 ;; done s r5)
+                   (rec r3 pendE result2)
+               else rec r3 pendE result2)
+        end
+    end
+  end.
+
+Definition fmt_body (rest pend result : list Z) : res (list Z) :=
+  match rest with
+  | [] => OK (result ++ flush o pend (fc_tm cx))
+  | _ =>
+    let '(lit, r1) := span_while (fun c => negb (is_pct c)) rest in
+    let '(result1, pend1) := lit_upd lit pend result in
+    let '(pcs, r2) := span_while is_pct r1 in
+    let p := Z.of_nat (length pcs) in
+    let at_end := match r2 with [] => true | _ => false end in
+    let '(result2, pend2) := pct_upd pcs pend1 result1 at_end in
+    match r2 with
+    | [] => OK (result2 ++ flush o pend2 (fc_tm cx))
+    | c :: r3 =>
+      if Z.rem p 2 =? 0 then rec r2 pend2 result2
+      else odd_tail c r3 r2 pend2 result2
+    end
+  end.
+End Body.
+
+Section Loop2.
+Variable o : list Z -> tmrec -> list Z.
+Fixpoint fmt_loop2 (fuel : nat) (cx : fctx) (rest pend result : list Z) : res (list Z) :=
+  match fuel with
+  | O => Err Fuel
+  | S f => fmt_body o (fmt_loop2 f cx) cx rest pend result
+  end.
+End Loop2.
+
+Lemma fmt_loop_eq : fmt_loop = fmt_loop2.
+Proof. exact_no_check (@eq_refl _ fmt_loop). Qed.
+
+Lemma fmt_loop_S o f cx rest pend result :
+  fmt_loop o (S f) cx rest pend result = fmt_body o (fmt_loop o f cx) cx rest pend result.
+Proof. rewrite fmt_loop_eq. exact eq_refl. Qed.
+
+(* ---- characterisations of the selectors by equality tests ---- *)
+Ltac zwalk x :=
+  destruct x as [|?p|?p]; try reflexivity;
+  repeat (match goal with p : positive |- _ => destruct p as [p|p|] end; try reflexivity);
+  try congruence.
+
+Lemma lx_top_spec {A} c r (knil : A) kpct klit :
+  lx_top (c :: r) knil kpct klit = if c =? 37 then kpct r else klit c r.
+Proof.
+  destruct (Z.eqb_spec c 37) as [->|N]; [reflexivity|]. zwalk c.
+Qed.
+
+Lemma lx_Sf_spec {A} r (kS kf : list Z -> A) dflt :
+  lx_Sf r kS kf dflt =
+  match r with
+  | x :: r4 => if x =? 83 then kS r4 else if x =? 102 then kf r4 else dflt
+  | [] => dflt
+  end.
+Proof.
+  destruct r as [|x r4]; [reflexivity|].
+  destruct (Z.eqb_spec x 83) as [->|N1]; [reflexivity|].
+  destruct (Z.eqb_spec x 102) as [->|N2]; [reflexivity|]. zwalk x.
+Qed.
+
+Section LxAfter.
+Context {A : Type} (knil : A) (kpct kcz kccz kcccz kE : list Z -> A) (kO kc : Z -> list Z -> A).
+
+Lemma lx_after_other c r' : c <> 37 -> c <> 58 -> c <> 69 -> c <> 79 ->
+  lx_after (c :: r') knil kpct kcz kccz kcccz kE kO kc = kc c r'.
+Proof. intros N1 N2 N3 N4. zwalk c. Qed.
+
+Lemma lx_after_79 r3 :
+  lx_after (79 :: r3) knil kpct kcz kccz kcccz kE kO kc =
+  match r3 with d :: r2 => kO d r2 | [] => kc 79 [] end.
+Proof. destruct r3; reflexivity. Qed.
+
+Lemma lx_after_58 r3 :
+  lx_after (58 :: r3) knil kpct kcz kccz kcccz kE kO kc =
+  match r3 with
+  | x :: r4 =>
+      if x =? 122 then kcz r4
+      else if x =? 58 then
+        match r4 with
+        | y :: r5 =>
+            if y =? 122 then kccz r5
+            else if y =? 58 then
+              match r5 with
+              | z :: r6 => if z =? 122 then kcccz r6 else kc 58 r3
+              | [] => kc 58 r3
+              end
+            else kc 58 r3
+        | [] => kc 58 r3
+        end
+      else kc 58 r3
+  | [] => kc 58 r3
+  end.
+Proof.
+  destruct r3 as [|x r4]; [reflexivity|].
+  destruct (Z.eqb_spec x 122) as [->|N1]; [reflexivity|].
+  destruct (Z.eqb_spec x 58) as [->|N2]; [|zwalk x].
+  destruct r4 as [|y r5]; [reflexivity|].
+  destruct (Z.eqb_spec y 122) as [->|M1]; [reflexivity|].
+  destruct (Z.eqb_spec y 58) as [->|M2]; [|zwalk y].
+  destruct r5 as [|z r6]; [reflexivity|].
+  destruct (Z.eqb_spec z 122) as [->|K1]; [reflexivity|]. zwalk z.
+Qed.
+End LxAfter.
+
+Section LxE.
+Context {A : Type} (knil : A) (kT kz ksz ksS ksf k4Y : list Z -> A) (kd : Z -> list Z -> A).
+
+Lemma lx_E_other d r2 : d <> 84 -> d <> 122 -> d <> 42 -> d <> 52 ->
+  lx_E (d :: r2) knil kT kz ksz ksS ksf k4Y kd = kd d r2.
+Proof. intros N1 N2 N3 N4. zwalk d. Qed.
+
+Lemma lx_E_42 r4 :
+  lx_E (42 :: r4) knil kT kz ksz ksS ksf k4Y kd =
+  match r4 with
+  | x :: r5 => if x =? 122 then ksz r5 else if x =? 83 then ksS r5 else if x =? 102 then ksf r5
+               else kd 42 r4
+  | [] => kd 42 r4
+  end.
+Proof.
+  destruct r4 as [|x r5]; [reflexivity|].
+  destruct (Z.eqb_spec x 122) as [->|N1]; [reflexivity|].
+  destruct (Z.eqb_spec x 83) as [->|N2]; [reflexivity|].
+  destruct (Z.eqb_spec x 102) as [->|N3]; [reflexivity|]. zwalk x.
+Qed.
+
+Lemma lx_E_52 r4 :
+  lx_E (52 :: r4) knil kT kz ksz ksS ksf k4Y kd =
+  match r4 with
+  | x :: r5 => if x =? 89 then k4Y r5 else kd 52 r4
+  | [] => kd 52 r4
+  end.
+Proof.
+  destruct r4 as [|x r5]; [reflexivity|].
+  destruct (Z.eqb_spec x 89) as [->|N1]; [reflexivity|]. zwalk x.
+Qed.
+End LxE.
+
+Lemma lx_glibc_P {A} (P : A -> Prop) r2 (kEO kx : Z -> list Z -> A) knil :
+  (forall x r3, P (kEO x r3)) -> (forall x r3, P (kx x r3)) -> P knil ->
+  P (lx_glibc r2 kEO kx knil).
+Proof.
+  intros H1 H2 H3.
+  destruct r2 as [|x r3]; [exact H3|].
+  destruct x as [|p|p]; try apply H2.
+  repeat (match goal with p : positive |- _ => destruct p as [p|p|] end; try apply H2);
+  destruct r3; try apply H1; apply H2.
+Qed.
+
+Definition colon_cl (r3 : list Z) : option (list Z * list Z) :=
+  match r3 with
+  | x :: r4 =>
+      if x =? 122 then Some ([58], r4)
+      else if x =? 58 then
+        match r4 with
+        | y :: r5 =>
+            if y =? 122 then Some ([58; 42], r5)
+            else if y =? 58 then
+              match r5 with
+              | z :: r6 => if z =? 122 then Some ([58; 42; 58], r6) else None
+              | [] => None
+              end
+            else None
+        | [] => None
+        end
+      else None
+  | [] => None
+  end.
+
+Lemma colon_sel_spec r3 : colon_sel r3 = colon_cl r3.
+Proof.
+  destruct r3 as [|x r4]; [reflexivity|]. unfold colon_cl.
+  destruct (Z.eqb_spec x 122) as [->|N1]; [reflexivity|].
+  destruct (Z.eqb_spec x 58) as [->|N2]; [|zwalk x].
+  destruct r4 as [|y r5]; [reflexivity|].
+  destruct (Z.eqb_spec y 122) as [->|M1]; [reflexivity|].
+  destruct (Z.eqb_spec y 58) as [->|M2]; [|zwalk y].
+  destruct r5 as [|z r6]; [reflexivity|].
+  destruct (Z.eqb_spec z 122) as [->|K1]; [reflexivity|]. zwalk z.
+Qed.
+
+Lemma e_sel_spec {A} d r4 (k1 k2 k3 k4 : list Z -> A) dflt :
+  e_sel d r4 k1 k2 k3 k4 dflt =
+  if d =? 42 then
+    match r4 with
+    | x :: r5 => if x =? 122 then k1 r5 else if x =? 83 then k2 r5 else if x =? 102 then k3 r5 else dflt
+    | [] => dflt
+    end
+  else if d =? 52 then
+    match r4 with
+    | x :: r5 => if x =? 89 then k4 r5 else dflt
+    | [] => dflt
+    end
+  else dflt.
+Proof.
+  destruct (Z.eqb_spec d 42) as [->|N1].
+  - destruct r4 as [|x r5]; [reflexivity|].
+    destruct (Z.eqb_spec x 122) as [->|M1]; [reflexivity|].
+    destruct (Z.eqb_spec x 83) as [->|M2]; [reflexivity|].
+    destruct (Z.eqb_spec x 102) as [->|M3]; [reflexivity|]. zwalk x.
+  - destruct (Z.eqb_spec d 52) as [->|N2].
+    + destruct r4 as [|x r5]; [reflexivity|].
+      destruct (Z.eqb_spec x 89) as [->|M1]; [reflexivity|]. zwalk x.
+    + zwalk d.
+Qed.
+
+Lemma pi_sel_spec {A} o (kS kf : Z -> list Z -> A) dflt :
+  pi_sel o kS kf dflt =
+  match o with
+  | Some (n, x :: r5) => if x =? 83 then kS n r5 else if x =? 102 then kf n r5 else dflt
+  | _ => dflt
+  end.
+Proof.
+  destruct o as [[n [|x r5]]|]; try reflexivity.
+  destruct (Z.eqb_spec x 83) as [->|M2]; [reflexivity|].
+  destruct (Z.eqb_spec x 102) as [->|M3]; [reflexivity|]. zwalk x.
+Qed.
+
+(* ================================================================== *)
+(* A common classification of what follows an unescaped '%'            *)
+
+Inductive cres := C_lib (k : libspec) (r' : list Z) | C_other.
+
+Definition cls_digits (d : Z) (r4 : list Z) : cres :=
+  if is_digit d then
+    let '(ds, r5) := take_digits_f (d :: r4) in
+    match r5 with
+    | x :: r6 =>
+        if x =? 83 then (if digits_val ds <=? 1024 then C_lib (LEnS (digits_val ds)) r6 else C_other)
+        else if x =? 102 then (if digits_val ds <=? 1024 then C_lib (LEnf (digits_val ds)) r6 else C_other)
+        else C_other
+    | [] => C_other
+    end
+  else C_other.
+
+Definition cls_colon (r3 : list Z) : cres :=
+  match r3 with
+  | x :: r4 =>
+      if x =? 122 then C_lib Lcz r4
+      else if x =? 58 then
+        match r4 with
+        | y :: r5 =>
+            if y =? 122 then C_lib Lccz r5
+            else if y =? 58 then
+              match r5 with
+              | z :: r6 => if z =? 122 then C_lib Lcccz r6 else C_other
+              | [] => C_other
+              end
+            else C_other
+        | [] => C_other
+        end
+      else C_other
+  | [] => C_other
+  end.
+
+Definition cls_E (r3 : list Z) : cres :=
+  match r3 with
+  | [] => C_other
+  | d :: r4 =>
+      if d =? 84 then C_lib LET r4
+      else if d =? 122 then C_lib LEz r4
+      else if d =? 42 then
+        match r4 with
+        | x :: r5 => if x =? 122 then C_lib LEsz r5 else if x =? 83 then C_lib LEsS r5
+                     else if x =? 102 then C_lib LEsf r5 else C_other
+        | [] => C_other
+        end
+      else if d =? 52 then
+        match r4 with
+        | x :: r5 => if x =? 89 then C_lib LE4Y r5 else cls_digits d r4
+        | [] => cls_digits d r4
+        end
+      else cls_digits d r4
+  end.
+
+Definition cls (c : Z) (r3 : list Z) : cres :=
+  match simple_lib c with
+  | Some k => C_lib k r3
+  | None => if c =? 58 then cls_colon r3 else if c =? 69 then cls_E r3 else C_other
+  end.
+
+Definition good (t : ftok) : bool := match t with FLit _ | FPct | FLib _ => true | _ => false end.
+Definition hd_bad (l : list ftok) : bool := match l with t :: _ => negb (good t) | [] => false end.
+
+Lemma simple_lib_none c : simple_lib c = None ->
+  c <> 89 /\ c <> 109 /\ c <> 100 /\ c <> 101 /\ c <> 85 /\ c <> 117 /\ c <> 87 /\ c <> 119 /\
+  c <> 72 /\ c <> 77 /\ c <> 83 /\ c <> 122 /\ c <> 90 /\ c <> 115.
+Proof.
+  unfold simple_lib. intros E.
+  repeat match type of E with (if ?x =? ?n then _ else _) = None =>
+    destruct (Z.eqb_spec x n); [discriminate|] end.
+  repeat split; assumption.
+Qed.
+
+Section LexCls.
+Variable rec : list Z -> list ftok.
+
+Lemma lex_kc_none r c r' : simple_lib c = None ->
+  hd_bad (lex_kc rec r c r') = true.
+Proof.
+  intros E. apply simple_lib_none in E.
+  destruct E as (N1 & N2 & N3 & N4 & N5 & N6 & N7 & N8 & N9 & N10 & N11 & N12 & N13 & N14).
+  unfold lex_kc.
+  repeat match goal with |- context [if ?x =? ?n then FLib _ :: _ else _] =>
+    destruct (Z.eqb_spec x n); [congruence|] end.
+  destruct ((c =? 0) || (c =? 58) || (c =? 79)); [reflexivity|].
+  destruct (is_flag c || is_digit c).
+  - destruct (take_while_f is_flag r) as [fl r1]. destruct (take_digits_f r1) as [wd r2].
+    apply (lx_glibc_P (fun l => hd_bad l = true)).
+    + intros x r3. destruct (negb (is_alpha x)); reflexivity.
+    + intros x r3. destruct (negb (is_alpha x)); reflexivity.
+    + reflexivity.
+  - destruct (negb (is_alpha c)); reflexivity.
+Qed.
+
+Lemma lex_kd_cls d r4 :
+  match cls_digits d r4 with
+  | C_lib k r' => lex_kd rec (d :: r4) d r4 = FLib k :: rec r'
+  | C_other => hd_bad (lex_kd rec (d :: r4) d r4) = true
+  end.
+Proof.
+  unfold cls_digits, lex_kd.
+  destruct (is_digit d).
+  - destruct (take_digits_f (d :: r4)) as [ds r5]. rewrite lx_Sf_spec.
+    destruct r5 as [|x r6]; [reflexivity|].
+    destruct (x =? 83); [destruct (digits_val ds <=? 1024); reflexivity|].
+    destruct (x =? 102); [destruct (digits_val ds <=? 1024); reflexivity|]. reflexivity.
+  - destruct (negb (is_alpha d)); reflexivity.
+Qed.
+
+Lemma lex_kE_cls r3 :
+  match cls_E r3 with
+  | C_lib k r' => lex_kE rec r3 = FLib k :: rec r'
+  | C_other => hd_bad (lex_kE rec r3) = true
+  end.
+Proof.
+  unfold cls_E, lex_kE.
+  destruct r3 as [|d r4]; [reflexivity|].
+  destruct (Z.eqb_spec d 84) as [->|N1]; [reflexivity|].
+  destruct (Z.eqb_spec d 122) as [->|N2]; [reflexivity|].
+  destruct (Z.eqb_spec d 42) as [->|N3].
+  { rewrite lx_E_42. destruct r4 as [|x r5]; [reflexivity|].
+    destruct (x =? 122); [reflexivity|]. destruct (x =? 83); [reflexivity|].
+    destruct (x =? 102); reflexivity. }
+  destruct (Z.eqb_spec d 52) as [->|N4].
+  { rewrite lx_E_52. destruct r4 as [|x r5]; [apply lex_kd_cls|].
+    destruct (x =? 89); [reflexivity|]. apply lex_kd_cls. }
+  rewrite lx_E_other by assumption. apply lex_kd_cls.
+Qed.
+
+Lemma lex_pct_cls c r3 : c <> 37 ->
+  match cls c r3 with
+  | C_lib k r' => lex_pct rec (c :: r3) = FLib k :: rec r'
+  | C_other => hd_bad (lex_pct rec (c :: r3)) = true
+  end.
+Proof.
+  intros N37. unfold cls.
+  destruct (simple_lib c) as [k|] eqn:Es.
+  - unfold simple_lib in Es.
+    repeat match type of Es with (if ?x =? ?n then _ else _) = Some _ =>
+      destruct (Z.eqb_spec x n); [subst c; inversion Es; subst k; reflexivity|] end.
+    discriminate.
+  - unfold lex_pct.
+    destruct (Z.eqb_spec c 58) as [->|N58].
+    { rewrite lx_after_58. unfold cls_colon.
+      pose proof (lex_kc_none (58 :: r3) 58 r3 Es) as B.
+      destruct r3 as [|x r4]; [exact B|].
+      destruct (x =? 122); [reflexivity|]. destruct (x =? 58); [|exact B].
+      destruct r4 as [|y r5]; [exact B|].
+      destruct (y =? 122); [reflexivity|]. destruct (y =? 58); [|exact B].
+      destruct r5 as [|z r6]; [exact B|].
+      destruct (z =? 122); [reflexivity|exact B]. }
+    destruct (Z.eqb_spec c 69) as [->|N69].
+    { change (lx_after (69 :: r3) _ _ _ _ _ _ _ _) with (lex_kE rec r3). apply lex_kE_cls. }
+    destruct (Z.eqb_spec c 79) as [->|N79].
+    { rewrite lx_after_79. destruct r3 as [|d r2].
+      - apply (lex_kc_none [79] 79 [] Es).
+      - unfold lex_kO. destruct (negb (is_alpha d)); reflexivity. }
+    rewrite lx_after_other by assumption. apply lex_kc_none; assumption.
+Qed.
+End LexCls.
+
+Lemma lex_fuel_lit f c r : c <> 37 -> lex_fuel (S f) (c :: r) = FLit c :: lex_fuel f r.
+Proof.
+  intros N. rewrite lex_fuel_S. unfold lex_body. rewrite lx_top_spec.
+  destruct (Z.eqb_spec c 37); [contradiction|reflexivity].
+Qed.
+
+Lemma lex_fuel_pct f r : lex_fuel (S f) (37 :: r) = lex_pct (lex_fuel f) r.
+Proof. rewrite lex_fuel_S. reflexivity. Qed.
+
+Lemma lex_fuel_pctpct f r : lex_fuel (S f) (37 :: 37 :: r) = FPct :: lex_fuel f r.
+Proof. rewrite lex_fuel_pct. reflexivity. Qed.
+
+Lemma lex_fuel_pct_end f : lex_fuel (S f) [37] = [FQuirk [37]].
+Proof. rewrite lex_fuel_pct. reflexivity. Qed.
+
+(* ================================================================== *)
+(* ParseInt on the "%E<digits>" count                                  *)
+
+Definition pi_start (dp : list Z) (width : Z) : bool * option (list Z) * Z :=
+  match dp with
+  | 45 :: r =>
+      if (width <=? 0) || negb (width - 1 =? 0) then (true, Some r, if width <=? 0 then width else width - 1)
+      else (true, None, width - 1)
+  | _ => (false, Some dp, width)
+  end.
+
+Lemma parse_int_unfold kmin dp width lo hi :
+  parse_int kmin dp width lo hi =
+  let '(neg, start, w1) := pi_start dp width in
+  match start with
+  | None => None
+  | Some bp =>
+      let '(value, rest, n, erange) := parse_int_loop kmin bp w1 0 0 in
+      if negb (Nat.eqb n 0) && negb erange && (neg || negb (value =? kmin)) then
+        if negb neg || negb (value =? 0) then
+          let v := if neg then value else - value in
+          if (lo <=? v) && (v <=? hi) then Some (v, rest) else None
+        else None
+      else None
+  end.
+Proof. reflexivity. Qed.
+
+Lemma pi_start_len dp width neg bp w1 : pi_start dp width = (neg, Some bp, w1) ->
+  (length bp <= length dp)%nat.
+Proof.
+  destruct dp as [|c r]; [intros [= _ <- _]; lia|].
+  destruct (Z.eqb_spec c 45) as [->|N].
+  - cbn [pi_start]. destruct ((width <=? 0) || negb (width - 1 =? 0)); intros [= _ <- _]. cbn [length]. lia.
+  - assert (pi_start (c :: r) width = (false, Some (c :: r), width)) as -> by (zwalk c).
+    intros [= _ <- _]. lia.
+Qed.
+
+Lemma pi_start_other c r width : c <> 45 -> pi_start (c :: r) width = (false, Some (c :: r), width).
+Proof. intros N. zwalk c. Qed.
+
+Lemma parse_int_loop_len kmin : forall p w v n,
+  let '(v', rest, n', er) := parse_int_loop kmin p w v n in (length rest <= length p)%nat.
+Proof.
+  induction p as [|c r IH]; intros w v n; cbn [parse_int_loop]; [lia|].
+  destruct (strchr kDigits c) as [d|]; [|lia].
+  destruct (10 <=? d); [lia|].
+  destruct (v <? kmin ÷ 10); [lia|].
+  destruct (v * 10 <? kmin + d); [lia|].
+  destruct ((0 <? w) && (w - 1 =? 0)); [cbn [length]; lia|].
+  specialize (IH (if 0 <? w then w - 1 else w) (v * 10 - d) (S n)).
+  destruct (parse_int_loop kmin r _ _ _) as [[[v' rest] n'] er]. cbn [length]. lia.
+Qed.
+
+Lemma parse_int_res kmin dp width lo hi v rest :
+  parse_int kmin dp width lo hi = Some (v, rest) -> lo <= v <= hi /\ (length rest <= length dp)%nat.
+Proof.
+  rewrite parse_int_unfold.
+  destruct (pi_start dp width) as [[neg start] w1] eqn:Es.
+  destruct start as [bp|]; [|discriminate].
+  apply pi_start_len in Es.
+  pose proof (parse_int_loop_len kmin bp w1 0 0) as L.
+  destruct (parse_int_loop kmin bp w1 0 0) as [[[value rest'] n] er].
+  destruct (negb (Nat.eqb n 0) && negb er && (neg || negb (value =? kmin))); [|discriminate].
+  destruct (negb neg || negb (value =? 0)); [|discriminate].
+  cbv zeta.
+  destruct ((lo <=? (if neg then value else - value)) && ((if neg then value else - value) <=? hi)) eqn:E;
+    [|discriminate].
+  intros [= <- <-]. split; lia.
+Qed.
+
+Definition dstep (a c : Z) : Z := a * 10 + (c - 48).
+
+Lemma fold_dstep_ge : forall ds a, forallb is_digit ds = true -> 0 <= a -> a <= fold_left dstep ds a.
+Proof.
+  induction ds as [|c ds IH]; intros a Hd Ha; cbn [fold_left]; [lia|].
+  cbn [forallb] in Hd. apply andb_true_iff in Hd. destruct Hd as [Hc Hd].
+  unfold is_digit in Hc.
+  specialize (IH (dstep a c) Hd). unfold dstep in *. lia.
+Qed.
+
+Lemma parse_loop_digits : forall ds r a n,
+  forallb is_digit ds = true ->
+  match r with [] => True | x :: _ => is_digit x = false /\ x <> 0 end ->
+  0 <= a -> fold_left dstep ds a <= 1024 ->
+  parse_int_loop min32 (ds ++ r) 0 (- a) n = (- fold_left dstep ds a, r, (n + length ds)%nat, false).
+Proof.
+  induction ds as [|c ds IH]; intros r a n Hd Hr Ha Hb.
+  - cbn [app fold_left length]. rewrite Nat.add_0_r.
+    destruct r as [|x r']; [reflexivity|]. destruct Hr as [Hx Hx0].
+    cbn [parse_int_loop]. rewrite strchr_digits, Hx.
+    destruct (Z.eqb_spec x 0); [contradiction|reflexivity].
+  - cbn [forallb] in Hd. apply andb_true_iff in Hd. destruct Hd as [Hc Hd].
+    cbn [app fold_left length] in *.
+    pose proof (fold_dstep_ge ds (dstep a c) Hd) as G.
+    assert (48 <= c <= 57) as Hc' by (unfold is_digit in Hc; lia).
+    assert (0 <= dstep a c) as Hs by (unfold dstep; lia).
+    specialize (G Hs).
+    cbn [parse_int_loop]. rewrite strchr_digits, Hc.
+    replace (10 <=? c - 48) with false by lia.
+    change (min32 ÷ 10) with (-214748364).
+    replace (- a <? -214748364) with false by (unfold dstep in *; lia).
+    replace (- a * 10 <? min32 + (c - 48)) with false by (unfold min32, dstep in *; lia).
+    change ((0 <? 0) && (0 - 1 =? 0)) with false. cbv iota.
+    change (if 0 <? 0 then 0 - 1 else 0) with 0.
+    replace (- a * 10 - (c - 48)) with (- dstep a c) by (unfold dstep; lia).
+    rewrite IH by assumption.
+    replace (n + S (length ds))%nat with (S n + length ds)%nat by lia. reflexivity.
+Qed.
+
+Lemma take_digits_spec : forall l ds r, take_digits_f l = (ds, r) ->
+  l = ds ++ r /\ forallb is_digit ds = true /\
+  match r with [] => True | x :: _ => is_digit x = false end.
+Proof.
+  induction l as [|c l IH]; intros ds r E; cbn [take_digits_f] in E.
+  - inversion E; subst. auto.
+  - destruct (is_digit c) eqn:Ec.
+    + destruct (take_digits_f l) as [a b]. inversion E; subst.
+      destruct (IH a r eq_refl) as (E1 & E2 & E3). subst l.
+      split; [reflexivity|]. split; [cbn [forallb]; rewrite Ec, E2; reflexivity|exact E3].
+    + inversion E; subst. split; [reflexivity|]. split; [reflexivity|exact Ec].
+Qed.
+
+Lemma digits_val_fold ds : digits_val ds = fold_left dstep ds 0.
+Proof. reflexivity. Qed.
+
+Lemma parse_count d r4 ds x r6 : is_digit d = true ->
+  take_digits_f (d :: r4) = (ds, x :: r6) -> x <> 0 -> digits_val ds <= 1024 ->
+  parse_int32 (d :: r4) 0 0 1024 = Some (digits_val ds, x :: r6).
+Proof.
+  intros Hd Et Hx Hv.
+  pose proof (take_digits_spec _ _ _ Et) as (El & Hds & Hxd).
+  assert (1 <= length ds)%nat as Hlen.
+  { cbn [take_digits_f] in Et. rewrite Hd in Et. destruct (take_digits_f r4). inversion Et. cbn [length]. lia. }
+  unfold parse_int32. rewrite parse_int_unfold.
+  rewrite pi_start_other by (unfold is_digit in Hd; lia).
+  rewrite El. rewrite digits_val_fold in *.
+  pose proof (parse_loop_digits ds (x :: r6) 0 0 Hds (conj Hxd Hx) ltac:(lia) Hv) as P.
+  change (- 0) with 0 in P. rewrite P.
+  pose proof (fold_dstep_ge ds 0 Hds ltac:(lia)) as G.
+  replace (Nat.eqb (0 + length ds) 0) with false by (symmetry; apply Nat.eqb_neq; lia).
+  cbn [negb andb orb].
+  replace (- fold_left dstep ds 0 =? min32) with false by (unfold min32; lia).
+  cbn [negb]. cbv zeta.
+  rewrite Z.opp_involutive.
+  replace ((0 <=? fold_left dstep ds 0) && (fold_left dstep ds 0 <=? 1024)) with true by lia.
+  reflexivity.
+Qed.
+
+(* ---- strchr on the simple-specifier set ---- *)
+Lemma strchr_simple_some c k : simple_lib c = Some k -> exists i, strchr simple_set c = Some i.
+Proof.
+  intros E. unfold strchr, simple_set. cbn [index_of].
+  repeat match goal with |- context [?n =? c] =>
+    destruct (Z.eqb_spec n c); [eexists; reflexivity|] end.
+  exfalso. unfold simple_lib in E.
+  repeat match type of E with (if ?x =? ?n then _ else _) = Some _ =>
+    destruct (Z.eqb_spec x n); [congruence|] end.
+  discriminate.
+Qed.
+
+Lemma strchr_simple_none c : simple_lib c = None -> c <> 37 -> c <> 0 -> strchr simple_set c = None.
+Proof.
+  intros E N37 N0. apply simple_lib_none in E.
+  destruct E as (N1 & N2 & N3 & N4 & N5 & N6 & N7 & N8 & N9 & N10 & N11 & N12 & N13 & N14).
+  unfold strchr, simple_set. cbn [index_of].
+  repeat match goal with |- context [?n =? c] =>
+    destruct (Z.eqb_spec n c); [congruence|] end.
+  destruct (Z.eqb_spec c 0); [contradiction|reflexivity].
+Qed.
+
+(* ================================================================== *)
+(* The specifier dispatch of format(): functional and safety lemmas    *)
+
+Section OddTail.
+Variable o : list Z -> tmrec -> list Z.
+Variable rec : list Z -> list Z -> list Z -> res (list Z).
+Variable cx : fctx.
+Hypothesis Hcx : cx_ok cx.
+
+Lemma cx_off : -86400 <= al_off (fc_al cx) <= 86400.
+Proof. destruct Hcx as ((_ & _ & H) & _). exact H. Qed.
+
+Lemma impl_digits (K : list Z -> list Z -> res (list Z)) (D : res (list Z)) d r4 k r' :
+  cls_digits d r4 = C_lib k r' ->
+  (if is_digit d then
+     pi_sel (parse_int32 (d :: r4) 0 0 1024)
+       (fun n r5 => do s <- ext_num cx n 83 ;; K s r5)
+       (fun n r5 => do s <- ext_num cx n 102 ;; K s r5) D
+   else D) = K (rl cx k) r'.
+Proof.
+  unfold cls_digits. destruct (is_digit d) eqn:Ed; [|discriminate].
+  destruct (take_digits_f (d :: r4)) as [ds r5] eqn:Et.
+  destruct r5 as [|x r6]; [discriminate|].
+  pose proof (take_digits_spec _ _ _ Et) as (_ & Hds & _).
+  pose proof (fold_dstep_ge ds 0 Hds ltac:(lia)) as G. rewrite <- digits_val_fold in G.
+  destruct (Z.eqb_spec x 83) as [->|N1].
+  { destruct (Z.leb_spec (digits_val ds) 1024) as [L|L]; [|discriminate].
+    intros [= <- <-].
+    rewrite (parse_count d r4 ds 83 r6 Ed Et ltac:(lia) L). rewrite pi_sel_spec.
+    change (83 =? 83) with true. cbv iota.
+    rewrite ext_num_S by (auto; lia). reflexivity. }
+  destruct (Z.eqb_spec x 102) as [->|N2]; [|discriminate].
+  destruct (Z.leb_spec (digits_val ds) 1024) as [L|L]; [|discriminate].
+  intros [= <- <-].
+  rewrite (parse_count d r4 ds 102 r6 Ed Et ltac:(lia) L). rewrite pi_sel_spec.
+  change (102 =? 83) with false. change (102 =? 102) with true. cbv iota.
+  rewrite ext_num_f by (auto; lia). reflexivity.
+Qed.
+
+Lemma impl_cls c r3 r2 pend2 result2 k r' : c <> 37 -> cls c r3 = C_lib k r' ->
+  odd_tail o rec cx c r3 r2 pend2 result2
+  = rec r' [] (result2 ++ flush o (removelast pend2) (fc_tm cx) ++ rl cx k).
+Proof.
+  intros N37 E. pose proof cx_off as Hoff. unfold cls in E.
+  destruct (simple_lib c) as [k0|] eqn:Es.
+  - inversion E; subst k0 r'. unfold odd_tail.
+    destruct (strchr_simple_some c k Es) as [i ->].
+    rewrite (simple_spec_lib cx c k Hcx Es). reflexivity.
+  - destruct (Z.eqb_spec c 58) as [->|N58].
+    { unfold odd_tail. change (strchr simple_set 58) with (@None Z). cbv iota.
+      change (58 =? 58) with true. cbv iota. rewrite colon_sel_spec.
+      unfold colon_cl, cls_colon in *.
+      destruct r3 as [|x r4]; [discriminate|].
+      destruct (x =? 122).
+      { inversion E; subst. rewrite format_offset_cz by assumption. reflexivity. }
+      destruct (x =? 58); [|discriminate].
+      destruct r4 as [|y r5]; [discriminate|].
+      destruct (y =? 122).
+      { inversion E; subst. rewrite format_offset_ccz by assumption. reflexivity. }
+      destruct (y =? 58); [|discriminate].
+      destruct r5 as [|z r6]; [discriminate|].
+      destruct (z =? 122); [|discriminate].
+      inversion E; subst. rewrite format_offset_cccz by assumption. reflexivity. }
+    destruct (Z.eqb_spec c 69) as [->|N69]; [|discriminate].
+    unfold odd_tail. change (strchr simple_set 69) with (@None Z). cbv iota.
+    change (69 =? 58) with false. cbv iota. change (negb (69 =? 69)) with false. cbv iota.
+    unfold cls_E in E.
+    destruct r3 as [|d r4]; [discriminate|]. cbv zeta.
+    destruct (d =? 84). { inversion E; subst. reflexivity. }
+    destruct (d =? 122). { inversion E; subst. rewrite format_offset_cz by assumption. reflexivity. }
+    rewrite e_sel_spec.
+    destruct (d =? 42) eqn:E42.
+    { destruct r4 as [|x r5]; [discriminate|].
+      destruct (x =? 122). { inversion E; subst. rewrite format_offset_ccz by assumption. reflexivity. }
+      destruct (x =? 83). { inversion E; subst. rewrite ext_star_S by assumption. reflexivity. }
+      destruct (x =? 102). { inversion E; subst. rewrite ext_star_f by assumption. reflexivity. }
+      discriminate. }
+    destruct (d =? 52) eqn:E52.
+    { destruct r4 as [|x r5].
+      - apply (impl_digits (fun s rr => rec rr [] (result2 ++ flush o (removelast pend2) (fc_tm cx) ++ s))).
+        exact E.
+      - destruct (x =? 89).
+        { inversion E; subst. rewrite format_E4Y by assumption. reflexivity. }
+        apply (impl_digits (fun s rr => rec rr [] (result2 ++ flush o (removelast pend2) (fc_tm cx) ++ s))).
+        exact E. }
+    apply (impl_digits (fun s rr => rec rr [] (result2 ++ flush o (removelast pend2) (fc_tm cx) ++ s))).
+    exact E.
+Qed.
+
+(* ---- safety of the dispatch ---- *)
+Lemma colon_cl_cases r3 :
+  colon_cl r3 = None \/
+  exists mode r4, colon_cl r3 = Some (mode, r4) /\ (length r4 <= length r3)%nat /\
+                  (mode = [58] \/ mode = [58; 42] \/ mode = [58; 42; 58]).
+Proof.
+  unfold colon_cl.
+  destruct r3 as [|x r4]; [auto|].
+  destruct (x =? 122). { right. eexists _, _. split; [reflexivity|]. cbn [length]. split; [lia|auto]. }
+  destruct (x =? 58); [|auto].
+  destruct r4 as [|y r5]; [auto|].
+  destruct (y =? 122). { right. eexists _, _. split; [reflexivity|]. cbn [length]. split; [lia|auto]. }
+  destruct (y =? 58); [|auto].
+  destruct r5 as [|z r6]; [auto|].
+  destruct (z =? 122); [|auto].
+  right. eexists _, _. split; [reflexivity|]. cbn [length]. split; [lia|auto].
+Qed.
+
+Lemma odd_tail_safe c r3 r2 pend2 result2 :
+  (forall rr p res, (length rr <= length r3)%nat -> exists x, rec rr p res = OK x) ->
+  (forall p res, exists x, rec r2 p res = OK x) ->
+  exists x, odd_tail o rec cx c r3 r2 pend2 result2 = OK x.
+Proof.
+  intros Hrec Hr2. pose proof cx_off as Hoff. unfold odd_tail.
+  destruct (strchr simple_set c).
+  { destruct (simple_spec_total cx c Hcx) as [s ->]. cbn [bind]. apply Hrec. lia. }
+  destruct (if c =? 58 then colon_sel r3 else None) as [[mode r4]|] eqn:Ecol.
+  { destruct (c =? 58); [|discriminate]. rewrite colon_sel_spec in Ecol.
+    destruct (colon_cl_cases r3) as [En|(m' & r4' & Es & Hl & Hm)]; [congruence|].
+    rewrite Es in Ecol. inversion Ecol; subst m' r4'.
+    destruct Hm as [ -> | [ -> | -> ] ];
+      [rewrite format_offset_cz by assumption | rewrite format_offset_ccz by assumption
+      | rewrite format_offset_cccz by assumption]; cbn [bind]; apply Hrec; assumption. }
+  destruct (negb (c =? 69)); [apply Hr2|].
+  destruct r3 as [|d r4]; [apply Hrec; lia|]. cbv zeta.
+  assert (forall rr p res, (length rr <= length r4)%nat -> exists x, rec rr p res = OK x) as Hrec4.
+  { intros rr p res L. apply Hrec. cbn [length]. lia. }
+  destruct (d =? 84); [apply Hrec4; lia|].
+  destruct (d =? 122). { rewrite format_offset_cz by assumption. cbn [bind]. apply Hrec4; lia. }
+  assert (exists x,
+    (if is_digit d
+     then pi_sel (parse_int32 (d :: r4) 0 0 1024)
+       (fun n r5 => do s <- ext_num cx n 83;; rec r5 [] (result2 ++ flush o (removelast pend2) (fc_tm cx) ++ s))
+       (fun n r5 => do s <- ext_num cx n 102;; rec r5 [] (result2 ++ flush o (removelast pend2) (fc_tm cx) ++ s))
+       (rec (d :: r4) (pend2 ++ [69]) result2)
+     else rec (d :: r4) (pend2 ++ [69]) result2) = OK x) as Hdflt.
+  { destruct (is_digit d); [|apply Hrec; lia].
+    rewrite pi_sel_spec.
+    destruct (parse_int32 (d :: r4) 0 0 1024) as [[n [|x r5]]|] eqn:Ep; try (apply Hrec; lia).
+    apply parse_int_res in Ep. destruct Ep as [Hn Hl]. cbn [length] in Hl.
+    destruct (x =? 83). { rewrite ext_num_S by assumption. cbn [bind]. apply Hrec. cbn [length]. lia. }
+    destruct (x =? 102). { rewrite ext_num_f by assumption. cbn [bind]. apply Hrec. cbn [length]. lia. }
+    apply Hrec; lia. }
+  rewrite e_sel_spec.
+  destruct (d =? 42).
+  { destruct r4 as [|x r5]; [exact Hdflt|].
+    assert (forall rr p res, (length rr <= length r5)%nat -> exists x, rec rr p res = OK x) as Hrec5.
+    { intros rr p res L. apply Hrec4. cbn [length]. lia. }
+    destruct (x =? 122). { rewrite format_offset_ccz by assumption. cbn [bind]. apply Hrec5; lia. }
+    destruct (x =? 83). { rewrite ext_star_S by assumption. cbn [bind]. apply Hrec5; lia. }
+    destruct (x =? 102). { rewrite ext_star_f by assumption. cbn [bind]. apply Hrec5; lia. }
+    exact Hdflt. }
+  destruct (d =? 52); [|exact Hdflt].
+  destruct r4 as [|x r5]; [exact Hdflt|].
+  destruct (x =? 89); [|exact Hdflt].
+  rewrite format_E4Y by assumption. cbn [bind]. apply Hrec4. cbn [length]. lia.
+Qed.
+End OddTail.
+
+(* ================================================================== *)
+(* Part 4: no format string makes format() fail                        *)
+
+Lemma span_spec f : forall l a b, span_while f l = (a, b) ->
+  l = a ++ b /\ forallb f a = true /\ match b with [] => True | x :: _ => f x = false end.
+Proof.
+  induction l as [|c l IH]; intros a b E; cbn [span_while] in E.
+  - inversion E; subst. auto.
+  - destruct (f c) eqn:Ec.
+    + destruct (span_while f l) as [a' b']. inversion E; subst.
+      destruct (IH a' b eq_refl) as (E1 & E2 & E3). subst l.
+      split; [reflexivity|]. split; [cbn [forallb]; rewrite Ec, E2; reflexivity|exact E3].
+    + inversion E; subst. split; [reflexivity|]. split; [reflexivity|exact Ec].
+Qed.
+
+Lemma span_two l lit r1 pcs r2 : l <> [] ->
+  span_while (fun c => negb (is_pct c)) l = (lit, r1) -> span_while is_pct r1 = (pcs, r2) ->
+  l = lit ++ pcs ++ r2 /\ (1 <= length lit + length pcs)%nat.
+Proof.
+  intros Hne E1 E2.
+  pose proof (span_spec _ _ _ _ E1) as (H1 & _ & H1').
+  pose proof (span_spec _ _ _ _ E2) as (H2 & _ & _).
+  split; [rewrite H1, H2; reflexivity|].
+  destruct lit as [|a lit]; [|cbn [length]; lia].
+  cbn [app] in H1. subst r1. destruct l as [|c l]; [contradiction|].
+  cbn beta in H1'. cbn [span_while] in E2.
+  destruct (is_pct c); [|discriminate].
+  destruct (span_while is_pct l). inversion E2. cbn [length]. lia.
+Qed.
+
+Section Safe.
+Variable o : list Z -> tmrec -> list Z.
+Variable cx : fctx.
+Hypothesis Hcx : cx_ok cx.
+
+Lemma body_safe rec rest pend result :
+  (forall rr p res, (length rr < length rest)%nat -> exists x, rec rr p res = OK x) ->
+  exists x, fmt_body o rec cx rest pend result = OK x.
+Proof.
+  intros Hrec. unfold fmt_body.
+  destruct rest as [|c0 rest0]; [eauto|].
+  destruct (span_while (fun c => negb (is_pct c)) (c0 :: rest0)) as [lit r1] eqn:E1.
+  destruct (lit_upd lit pend result) as [result1 pend1].
+  destruct (span_while is_pct r1) as [pcs r2] eqn:E2.
+  cbv zeta.
+  destruct (pct_upd pcs pend1 result1 _) as [result2 pend2].
+  assert (c0 :: rest0 <> []) as Hne by discriminate.
+  destruct (span_two _ _ _ _ _ Hne E1 E2) as [Hl Hn].
+  assert (length r2 < length (c0 :: rest0))%nat as Hlt.
+  { rewrite Hl, !app_length. lia. }
+  destruct r2 as [|c r3]; [eauto|].
+  destruct (Z.rem (Z.of_nat (length pcs)) 2 =? 0); [apply Hrec; exact Hlt|].
+  apply odd_tail_safe; [assumption| |].
+  - intros rr p res L. apply Hrec. cbn [length] in *. lia.
+  - intros p res. apply Hrec. exact Hlt.
+Qed.
+
+Lemma loop_safe : forall fuel rest pend result, (length rest < fuel)%nat ->
+  exists x, fmt_loop o fuel cx rest pend result = OK x.
+Proof.
+  induction fuel as [|f IH]; intros rest pend result L; [lia|].
+  rewrite fmt_loop_S. apply body_safe. intros rr p res L'. apply IH. lia.
+Qed.
+End Safe.
+
+Lemma cx_ok_mk al fs unix : al_ok' al -> 0 <= fs < 10 ^ 15 -> int64 unix ->
+  cx_ok (mkFC al (spec_tm (al_cs al) (al_dst al)) fs unix).
+Proof. intros H1 H2 H3. repeat split; try apply H1; try apply H2; try apply H3. Qed.
+
+Lemma format_safe_lemma : forall strftime_o fmt al fs unix,
+  (valid_fields (al_cs al) = true /\ int64 (fy (al_cs al)) /\ -86400 <= al_off al <= 86400) ->
+  0 <= fs < 10 ^ 15 -> int64 unix ->
+  exists r, format_impl strftime_o fmt al fs unix = OK r.
+Proof.
+  intros o fmt al fs unix Hal Hfs Hu. unfold format_impl.
+  rewrite to_tm_spec_lemma by exact Hal. cbn [bind].
+  apply loop_safe; [apply cx_ok_mk; assumption|lia].
+Qed.
+
+(* ================================================================== *)
+(* Part 3b: the loop on literal / %% / library-specifier formats       *)
+
+Lemma lex_fuel_nil f : lex_fuel f [] = [].
+Proof. destruct f; reflexivity. Qed.
+
+Lemma lex_lits : forall lit r f, forallb (fun c => negb (is_pct c)) lit = true ->
+  lex_fuel (length lit + f) (lit ++ r) = map FLit lit ++ lex_fuel f r.
+Proof.
+  induction lit as [|c lit IH]; intros r f H; [reflexivity|].
+  cbn [forallb] in H. apply andb_true_iff in H. destruct H as [Hc H].
+  cbn [length app map Nat.add]. rewrite lex_fuel_lit by (unfold is_pct in Hc; lia).
+  rewrite IH by assumption. reflexivity.
+Qed.
+
+Lemma lex_pcts : forall k r f,
+  lex_fuel (k + f) (repeat 37 (2 * k) ++ r) = repeat FPct k ++ lex_fuel f r.
+Proof.
+  induction k as [|k IH]; intros r f; [reflexivity|].
+  replace (2 * S k)%nat with (S (S (2 * k))) by lia.
+  cbn [repeat app Nat.add]. rewrite lex_fuel_pctpct, IH. reflexivity.
+Qed.
+
+Lemma all_pct_repeat : forall pcs, forallb is_pct pcs = true -> pcs = repeat 37 (length pcs).
+Proof.
+  induction pcs as [|c pcs IH]; intros H; [reflexivity|].
+  cbn [forallb] in H. apply andb_true_iff in H. destruct H as [Hc H].
+  cbn [length repeat]. rewrite <- IH by assumption. unfold is_pct in Hc. f_equal. lia.
+Qed.
+
+Lemma pct_upd_even pcs k res at_end : length pcs = (2 * k)%nat ->
+  pct_upd pcs [] res at_end = (res ++ repeat 37 k, []).
+Proof.
+  intros Hl. unfold pct_upd.
+  destruct pcs as [|a pcs'].
+  - cbn [length] in Hl. assert (k = 0)%nat as -> by lia. cbn [repeat app]. rewrite app_nil_r. reflexivity.
+  - rewrite Hl. cbv zeta.
+    replace (Z.rem (Z.of_nat (2 * k)) 2 =? 0) with true by lia.
+    replace (Z.to_nat (Z.of_nat (2 * k) ÷ 2)) with k by lia.
+    reflexivity.
+Qed.
+
+Lemma pct_upd_odd pcs k res at_end : length pcs = (2 * k + 1)%nat ->
+  pct_upd pcs [] res at_end =
+  if at_end then (res ++ repeat 37 k ++ [37], []) else (res ++ repeat 37 k, [37]).
+Proof.
+  intros Hl. unfold pct_upd.
+  destruct pcs as [|a pcs']; [cbn [length] in Hl; lia|].
+  rewrite Hl. cbv zeta.
+  replace (Z.rem (Z.of_nat (2 * k + 1)) 2 =? 0) with false by lia.
+  replace (Z.to_nat (Z.of_nat (2 * k + 1) ÷ 2)) with k by lia.
+  destruct at_end; reflexivity.
+Qed.
+
+Lemma cls_digits_len d r4 k r' : cls_digits d r4 = C_lib k r' -> (length r' <= length r4)%nat.
+Proof.
+  unfold cls_digits. destruct (is_digit d) eqn:Ed; [|discriminate].
+  destruct (take_digits_f (d :: r4)) as [ds r5] eqn:Et.
+  pose proof (take_digits_spec _ _ _ Et) as (El & _ & _).
+  assert (length (d :: r4) = length ds + length r5)%nat as L by (rewrite El, app_length; reflexivity).
+  destruct r5 as [|x r6]; [discriminate|]. cbn [length] in L.
+  assert (1 <= length ds)%nat as Hlen.
+  { cbn [take_digits_f] in Et. rewrite Ed in Et. destruct (take_digits_f r4). inversion Et. cbn [length]. lia. }
+  destruct (x =? 83); [destruct (digits_val ds <=? 1024); [|discriminate]; intros [= _ <-]; lia|].
+  destruct (x =? 102); [destruct (digits_val ds <=? 1024); [|discriminate]; intros [= _ <-]; lia|].
+  discriminate.
+Qed.
+
+Lemma cls_len c r3 k r' : cls c r3 = C_lib k r' -> (length r' <= length r3)%nat.
+Proof.
+  unfold cls. destruct (simple_lib c); [intros [= _ <-]; lia|].
+  destruct (c =? 58).
+  { unfold cls_colon.
+    destruct r3 as [|x r4]; [discriminate|]. cbn [length].
+    destruct (x =? 122); [intros [= _ <-]; lia|]. destruct (x =? 58); [|discriminate].
+    destruct r4 as [|y r5]; [discriminate|]. cbn [length].
+    destruct (y =? 122); [intros [= _ <-]; lia|]. destruct (y =? 58); [|discriminate].
+    destruct r5 as [|z r6]; [discriminate|]. cbn [length].
+    destruct (z =? 122); [intros [= _ <-]; lia|discriminate]. }
+  destruct (c =? 69); [|discriminate].
+  unfold cls_E. destruct r3 as [|d r4]; [discriminate|]. cbn [length].
+  destruct (d =? 84); [intros [= _ <-]; lia|].
+  destruct (d =? 122); [intros [= _ <-]; lia|].
+  destruct (d =? 42).
+  { destruct r4 as [|x r5]; [discriminate|]. cbn [length].
+    destruct (x =? 122); [intros [= _ <-]; lia|].
+    destruct (x =? 83); [intros [= _ <-]; lia|].
+    destruct (x =? 102); [intros [= _ <-]; lia|discriminate]. }
+  destruct (d =? 52).
+  { destruct r4 as [|x r5]; [intros H; apply cls_digits_len in H; lia|].
+    destruct (x =? 89); [intros [= _ <-]; cbn [length]; lia|].
+    intros H; apply cls_digits_len in H; lia. }
+  intros H; apply cls_digits_len in H; lia.
+Qed.
+
+Lemma hd_bad_not_good l : hd_bad l = true -> forallb good l = false.
+Proof.
+  destruct l as [|t l]; [discriminate|]. cbn [hd_bad forallb].
+  destruct (good t); [discriminate|reflexivity].
+Qed.
+
+Section LibOnly.
+Variable o : list Z -> tmrec -> list Z.
+Variable cx : fctx.
+Variable tm : tmrec.
+Hypothesis Hcx : cx_ok cx.
+
+Definition RT (t : ftok) : list Z :=
+  render_tok o t (al_cs (fc_al cx)) (al_off (fc_al cx)) (al_abbr (fc_al cx)) (fc_fs cx) (fc_unix cx) tm.
+
+Lemma RT_lits lit : flat_map RT (map FLit lit) = lit.
+Proof. induction lit as [|c l IH]; [reflexivity|]. cbn [map flat_map]. rewrite IH. reflexivity. Qed.
+
+Lemma RT_pcts k : flat_map RT (repeat FPct k) = repeat 37 k.
+Proof. induction k as [|k IH]; [reflexivity|]. cbn [repeat flat_map]. rewrite IH. reflexivity. Qed.
+
+Lemma body_lib rec rest result fl :
+  rest <> [] -> (length rest < fl)%nat -> forallb good (lex_fuel fl rest) = true ->
+  (forall rr res fl', (length rr < length rest)%nat -> (length rr < fl')%nat ->
+     forallb good (lex_fuel fl' rr) = true ->
+     rec rr [] res = OK (res ++ flat_map RT (lex_fuel fl' rr))) ->
+  fmt_body o rec cx rest [] result = OK (result ++ flat_map RT (lex_fuel fl rest)).
+Proof.
+  intros Hne Hfl Hgood Hrec. unfold fmt_body.
+  destruct rest as [|c0 rest0]; [contradiction|].
+  set (rest := c0 :: rest0) in *.
+  destruct (span_while (fun c => negb (is_pct c)) rest) as [lit r1] eqn:E1.
+  destruct (span_while is_pct r1) as [pcs r2] eqn:E2.
+  destruct (span_two _ _ _ _ _ Hne E1 E2) as [Hl Hn].
+  pose proof (span_spec _ _ _ _ E1) as (_ & Hlit & _).
+  pose proof (span_spec _ _ _ _ E2) as (_ & Hpcs & Hr2).
+  apply all_pct_repeat in Hpcs.
+  assert (lit_upd lit [] result = (result ++ lit, [])) as ->.
+  { destruct lit; [cbn; rewrite app_nil_r; reflexivity|reflexivity]. }
+  cbv zeta.
+  assert (length rest = length lit + length pcs + length r2)%nat as Hlen
+    by (rewrite Hl, !app_length; lia).
+  destruct (Nat.Even_or_Odd (length pcs)) as [[k Hk]|[k Hk]].
+  - (* an even run of percents *)
+    rewrite (pct_upd_even pcs k) by exact Hk.
+    replace (Z.rem (Z.of_nat (length pcs)) 2 =? 0) with true by lia.
+    assert (lex_fuel fl rest =
+            map FLit lit ++ repeat FPct k ++ lex_fuel (fl - length lit - k) r2) as EL.
+    { replace fl with (length lit + (k + (fl - length lit - k)))%nat at 1 by lia.
+      rewrite Hl, Hpcs, Hk, lex_lits, lex_pcts by assumption. reflexivity. }
+    rewrite EL in *. rewrite !forallb_app in Hgood.
+    apply andb_true_iff in Hgood. destruct Hgood as [_ Hgood].
+    apply andb_true_iff in Hgood. destruct Hgood as [_ Hgood].
+    rewrite !flat_map_app, RT_lits, RT_pcts.
+    destruct r2 as [|c r3].
+    + rewrite lex_fuel_nil. cbn [flush flat_map]. rewrite <- !app_assoc. reflexivity.
+    + rewrite (Hrec (c :: r3) _ (fl - length lit - k)%nat); [|lia|lia|exact Hgood].
+      rewrite <- !app_assoc. reflexivity.
+  - (* an odd run: the last percent introduces a specifier *)
+    rewrite (pct_upd_odd pcs k) by exact Hk.
+    replace (Z.rem (Z.of_nat (length pcs)) 2 =? 0) with false by lia.
+    assert (exists f3, fl = (length lit + (k + S f3))%nat /\ (k + length r2 < f3)%nat) as (f3 & Efl & Hf3).
+    { exists (fl - length lit - k - 1)%nat. lia. }
+    assert (lex_fuel fl rest =
+            map FLit lit ++ repeat FPct k ++ lex_fuel (S f3) (37 :: r2)) as EL.
+    { rewrite Efl, Hl, Hpcs, Hk.
+      replace (2 * k + 1)%nat with (2 * k + 1)%nat by lia. rewrite repeat_app.
+      cbn [repeat]. rewrite <- (app_assoc (repeat 37 (2 * k)) [37] r2). cbn [app].
+      rewrite lex_lits, lex_pcts by assumption. reflexivity. }
+    rewrite EL in *. rewrite !forallb_app in Hgood.
+    apply andb_true_iff in Hgood. destruct Hgood as [_ Hgood].
+    apply andb_true_iff in Hgood. destruct Hgood as [_ Hgood].
+    destruct r2 as [|c r3].
+    { rewrite lex_fuel_pct_end in Hgood. discriminate. }
+    assert (c <> 37) as N37 by (unfold is_pct in Hr2; lia).
+    rewrite lex_fuel_pct in Hgood |- *.
+    pose proof (lex_pct_cls (lex_fuel f3) c r3 N37) as Hc.
+    destruct (cls c r3) as [k' r'|] eqn:Ecls.
+    2:{ apply hd_bad_not_good in Hc. congruence. }
+    rewrite Hc in *. cbn [forallb] in Hgood.
+    pose proof (cls_len _ _ _ _ Ecls) as Hlen'. cbn [length] in *.
+    rewrite (impl_cls o rec cx Hcx c r3 (c :: r3) [37] _ k' r' N37 Ecls).
+    cbn [removelast flush app].
+    rewrite (Hrec r' _ f3); [|lia|lia|exact Hgood].
+    rewrite !flat_map_app, RT_lits, RT_pcts. cbn [flat_map].
+    rewrite <- !app_assoc. reflexivity.
+Qed.
+
+Lemma loop_lib : forall fuel rest result fl,
+  (length rest < fuel)%nat -> (length rest < fl)%nat ->
+  forallb good (lex_fuel fl rest) = true ->
+  fmt_loop o fuel cx rest [] result = OK (result ++ flat_map RT (lex_fuel fl rest)).
+Proof.
+  induction fuel as [|f IH]; intros rest result fl L1 L2 G; [lia|].
+  rewrite fmt_loop_S.
+  destruct rest as [|c0 rest0].
+  - rewrite lex_fuel_nil. reflexivity.
+  - apply body_lib; [discriminate|assumption|assumption|].
+    intros rr res fl' La Lb Gr. apply IH; [lia|assumption|assumption].
+Qed.
+End LibOnly.
+
+Lemma format_lib_only_lemma : forall strftime_o fmt al fs unix tm,
+  forallb (fun c => negb (c =? 0)) fmt &&
+  forallb (fun t => match t with FLit _ | FPct | FLib _ => true | _ => false end) (lex fmt) = true ->
+  (valid_fields (al_cs al) = true /\ int64 (fy (al_cs al)) /\ -86400 <= al_off al <= 86400) ->
+  0 <= fs < 10 ^ 15 -> int64 unix ->
+  format_impl strftime_o fmt al fs unix
+  = OK (render_spec strftime_o fmt (al_cs al) (al_off al) (al_abbr al) fs unix tm).
+Proof.
+  intros o fmt al fs unix tm Hlib Hal Hfs Hu.
+  apply andb_true_iff in Hlib. destruct Hlib as [_ Hlex].
+  unfold format_impl. rewrite to_tm_spec_lemma by exact Hal. cbn [bind].
+  pose proof (cx_ok_mk al fs unix Hal Hfs Hu) as Hcx.
+  unfold render_spec. unfold lex in *.
+  change (forallb good (lex_fuel (S (length fmt)) fmt) = true) in Hlex.
+  assert (length fmt < 2 * length fmt + 2)%nat as L1 by lia.
+  assert (length fmt < S (length fmt))%nat as L2 by lia.
+  pose proof (loop_lib o _ tm Hcx (2 * length fmt + 2) fmt [] (S (length fmt)) L1 L2 Hlex) as E.
+  set (L := lex_fuel (S (length fmt)) fmt) in *. clearbody L.
+  rewrite E. reflexivity.
+Qed.
+
+Definition lib_only' (fmt : list Z) : bool :=
+  forallb (fun c => negb (c =? 0)) fmt &&
+  forallb (fun t => match t with FLit _ | FPct | FLib _ => true | _ => false end) (lex fmt).
+
+(* Everything requested is proved; nothing is left unproved in this file:
+   scratch_bound_lemma (+ format64_spec), to_tm_spec_lemma, the per-specifier
+   lemmas (format02d_ok, format_offset_z/cz/ccz/cccz, ext_star_S/f,
+   ext_num_S/f, format_E4Y, to_week_U/W, simple_spec_lib), format_safe_lemma
+   and format_lib_only_lemma (including %U / %W). *)
